@@ -124,6 +124,7 @@ osm_at_exit(int status)
 	__CPROVER_assert(osm.nfail > 0 || osm.nattempt == 0, "EXIT only if some stage failed (spawn failure, non-zero exit, signal), or before any stage was started (mkstemp/strdup failure)");
 	__CPROVER_assert(osm_nlive() == 0, "EXIT no child is still live (all reaped)");
 	__CPROVER_assert(osm_term_missing() == 0, "EXIT every stage that was live at the first failure was sent SIGTERM");
+	__CPROVER_assert(osm.late_term == 0, "EXIT after the first failure every still-live stage was sent SIGTERM before the next wait()");
 	__CPROVER_assert(osm.badkill == 0, "EXIT kill(SIGTERM) went to live stage pids only");
 	__CPROVER_assert(osm_tmp_left() == 0, "EXIT no temporary object of this invocation is left behind");
 	__CPROVER_assert(IMP(NAMED_OUT && osm.nspawn > 0, osm_was_unlinked(g_out)), "EXIT the -o output file was unlinked");
